@@ -59,7 +59,8 @@ def net_strategy(dll, max_stacks=4, max_msgs=8, allow_zero_latency=True, min_len
             stacks.append({"max_cmdt": draw(st.one_of(st.sampled_from(WINDOWS), st.integers(1, 255))),
                            "cas": cas, "ecu_listener": draw(st.booleans()),
                            "lat": draw(_lat_list(allow_zero_latency)),
-                           "tx_time": draw(st.sampled_from([0.0, 0.0, 0.0, 0.0001, 0.0005]))})
+                           "tx_time": draw(st.sampled_from([0.0, 0.0, 0.0, 0.0001, 0.0005])),
+                           "slow_rx": draw(st.sampled_from([0.0, 0.0, 0.0, 0.001, 0.02]))})
         unowned = [a for a in naddr[ai:]]
         nm = draw(st.integers(1, max_msgs))
         msgs = []
@@ -112,13 +113,14 @@ def duration_bound(params, m, bam_dt):
         return 0.0
     maxlat = max(max(s["lat"]) for s in params["stacks"])
     slack = 2 * max(params["eps"]) + 2 * max(params["disp"]) + 0.0005 + 3 * max(s.get("tx_time", 0.0) for s in params["stacks"])
+    slow = max(s.get("slow_rx", 0.0) for s in params["stacks"]) * (len(params["msgs"]) + 2) * 2
     n = packets(params, m)
     if m["kind"] in ("bc1", "bc2"):
-        return (n + 2) * (bam_dt + slack) + 0.1
+        return (n + 2) * (bam_dt + slack) + 0.1 + slow
     if m["kind"] == "unowned":
-        return 1.25 + slack + 0.1
+        return 1.25 + slack + 0.1 + slow
     fd_extra = 0.1 if params["dll"] == "j1939-22" else 0.0
-    return (n + 2) * (2 * maxlat + slack) + 0.2 + fd_extra
+    return (n + 2) * (2 * maxlat + slack) + 0.2 + fd_extra + slow
 
 
 def schedule(params, bam_dt, serialize_pairs=True):
@@ -193,7 +195,7 @@ def build_world(params, bam_dt=None, rts_cts_dt=None, **bus_kw):
                       tx_time=s.get("tx_time", 0.0))
         for j, ca in enumerate(s["cas"]):
             stk.add_ca("ca%d" % j, 0x1000 + 16 * i + j, ca["addr"], bypass=True)
-            stk.listen_ca("ca%d" % j, "s%d.ca%d" % (i, j))
+            stk.listen_ca("ca%d" % j, "s%d.ca%d" % (i, j), slow=s.get("slow_rx", 0.0) if j == 0 else 0.0)
         if s["ecu_listener"]:
             stk.listen_ecu("s%d.ecu" % i)
         stacks.append(stk)
